@@ -170,3 +170,21 @@ for _c in list(_REG):
         _c2.prop = 'C06'
         _c2.name = 'C06/dlc.' + _c.name.split('/', 1)[1]
         _REG.append(_c2)
+
+# what the application calls: Socket.send() -> llc.send()/sendto().  For a connection socket the link layer adds
+# nothing to DataLinkConnection.send: the connection MIU the peer announced at CONNECT/CC stays what it is (it is
+# NOT the link MIU), a message longer than it is refused with EMSGSIZE, an accepted one is queued unchanged.
+L5 = 'nfc.llcp.llc:'
+for _p5 in ('C05', 'C10'):
+  for _fn, _args in (('send', {}), ('sendto', dict(dest=Opt(SAP())))):
+    contract(L5 + 'LogicalLinkController.' + _fn, _p5,
+             dict(self=Obj(L5 + 'LogicalLinkController', lock=Lock(), cfg=DictOf({'send-miu': Int(128, 2175)})),
+                  socket=dlc(), message=Bytes(), flags=1, **_args),
+             name=_p5 + '/llc.' + _fn, requires=['dlc_inv(socket)'],
+             ensures=[('post.conn-miu', 'socket.send_miu == old(socket.send_miu)'),
+                      ('post.fits', 'len(message) <= old(socket.send_miu)'),
+                      ('post.queued', 'len(socket.send_queue) == old(len(socket.send_queue)) + 1 and '
+                                      'socket.send_queue[-1].data == message')],
+             raises={ERR: ['socket.send_miu == old(socket.send_miu)',
+                           'len(socket.send_queue) == old(len(socket.send_queue))',
+                           'implies(len(message) > old(socket.send_miu), exc.errno == EMSGSIZE)']})
